@@ -73,24 +73,47 @@ Lemma wf_state_parts st :
   forallb (wf_isock false) (k_tcp4 st) = true /\ forallb tcp_state_ok (k_tcp4 st) = true
   /\ forallb (wf_isock true) (opt_list (k_tcp6 st)) = true /\ forallb tcp_state_ok (opt_list (k_tcp6 st)) = true
   /\ forallb (wf_isock false) (k_udp4 st) = true /\ forallb (wf_isock true) (opt_list (k_udp6 st)) = true
-  /\ forallb wf_usock (k_unix st) = true /\ forallb wf_kproc (k_procs st) = true.
+  /\ forallb wf_usock (k_unix st) = true /\ forallb wf_kproc (k_procs st) = true /\ deg_ok st = true.
 Proof.
-  unfold wf_state. intros H. repeat (apply andb_true_iff in H as [H ?]). repeat split; assumption.
+  unfold wf_state. intros H. apply andb_true_iff in H as [H HD].
+  repeat (apply andb_true_iff in H as [H ?]). repeat split; assumption.
+Qed.
+
+(* a degenerate file stands for an existing table without sockets *)
+Lemma deg_ok_parts st :
+  deg_ok st = true ->
+  (forall d, k_deg st (bs "tcp") = Some d -> k_tcp4 st = [])
+  /\ (forall d, k_deg st (bs "tcp6") = Some d -> k_tcp6 st = Some [])
+  /\ (forall d, k_deg st (bs "udp") = Some d -> k_udp4 st = [])
+  /\ (forall d, k_deg st (bs "udp6") = Some d -> k_udp6 st = Some [])
+  /\ (forall d, k_deg st (bs "unix") = Some d -> k_unix st = []).
+Proof.
+  unfold deg_ok. intros H.
+  apply andb_true_iff in H as [H H5]. apply andb_true_iff in H as [H H4].
+  apply andb_true_iff in H as [H H3]. apply andb_true_iff in H as [H1 H2].
+  repeat split; intros d E.
+  - rewrite E in H1. now destruct (k_tcp4 st).
+  - rewrite E in H2. destruct (k_tcp6 st) as [[|x l]|]; congruence.
+  - rewrite E in H3. now destruct (k_udp4 st).
+  - rewrite E in H4. destruct (k_udp6 st) as [[|x l]|]; congruence.
+  - rewrite E in H5. now destruct (k_unix st).
 Qed.
 
 Lemma files_text_safe_parts le st :
   files_text_safe le st = true ->
-  text_safe (k_ifile le hdr_tcp (k_tcp4 st)) = true
-  /\ (forall l, k_tcp6 st = Some l -> text_safe (k_ifile le hdr_tcp6 l) = true)
-  /\ text_safe (k_ifile le hdr_udp (k_udp4 st)) = true
-  /\ (forall l, k_udp6 st = Some l -> text_safe (k_ifile le hdr_udp6 l) = true)
+  text_safe (k_table_file (k_deg st (bs "tcp")) hdr_tcp (k_ifile le hdr_tcp (k_tcp4 st))) = true
+  /\ (forall l, k_tcp6 st = Some l -> text_safe (k_table_file (k_deg st (bs "tcp6")) hdr_tcp6 (k_ifile le hdr_tcp6 l)) = true)
+  /\ text_safe (k_table_file (k_deg st (bs "udp")) hdr_udp (k_ifile le hdr_udp (k_udp4 st))) = true
+  /\ (forall l, k_udp6 st = Some l -> text_safe (k_table_file (k_deg st (bs "udp6")) hdr_udp6 (k_ifile le hdr_udp6 l)) = true)
   /\ unix_heads_safe st = true.
 Proof.
   unfold files_text_safe. intros H. apply andb_true_iff in H as [H HU]. revert H. cbn [forallb].
-  change (k_files le st (bs "tcp")) with (Some (k_ifile le hdr_tcp (k_tcp4 st))).
-  change (k_files le st (bs "tcp6")) with (option_map (k_ifile le hdr_tcp6) (k_tcp6 st)).
-  change (k_files le st (bs "udp")) with (Some (k_ifile le hdr_udp (k_udp4 st))).
-  change (k_files le st (bs "udp6")) with (option_map (k_ifile le hdr_udp6) (k_udp6 st)).
+  change (k_files le st (bs "tcp")) with (Some (k_table_file (k_deg st (bs "tcp")) hdr_tcp (k_ifile le hdr_tcp (k_tcp4 st)))).
+  change (k_files le st (bs "tcp6"))
+    with (option_map (fun l => k_table_file (k_deg st (bs "tcp6")) hdr_tcp6 (k_ifile le hdr_tcp6 l)) (k_tcp6 st)).
+  change (k_files le st (bs "udp")) with (Some (k_table_file (k_deg st (bs "udp")) hdr_udp (k_ifile le hdr_udp (k_udp4 st)))).
+  change (k_files le st (bs "udp6"))
+    with (option_map (fun l => k_table_file (k_deg st (bs "udp6")) hdr_udp6 (k_ifile le hdr_udp6 l)) (k_udp6 st)).
   intros H.
   apply andb_true_iff in H as [H1 H]. apply andb_true_iff in H as [H2 H].
   apply andb_true_iff in H as [H3 H]. apply andb_true_iff in H as [H4 _].
@@ -143,20 +166,26 @@ Section Protos.
 
   Lemma P_tcp4 : proto_rows v le o (k_files le st) lk filt p_tcp4 = Val (R_inet lk filt 2 1 (k_tcp4 st)).
   Proof.
-    apply wf_state_parts in Hwf as (W4 & S4 & _). apply files_text_safe_parts in Hsafe as (T4 & _).
+    apply wf_state_parts in Hwf as (W4 & S4 & _ & _ & _ & _ & _ & _ & HD). apply files_text_safe_parts in Hsafe as (T4 & _).
+    apply deg_ok_parts in HD as (D & _).
     unfold proto_rows, p_tcp4. cbv beta iota.
     change ((2 =? AF_INET) || (2 =? AF_INET6)) with true. cbv iota.
-    change (k_files le st (bs "tcp")) with (Some (k_ifile le hdr_tcp (k_tcp4 st))).
+    change (k_files le st (bs "tcp")) with (Some (k_table_file (k_deg st (bs "tcp")) hdr_tcp (k_ifile le hdr_tcp (k_tcp4 st)))).
+    destruct (k_deg st (bs "tcp")) as [d|]; cbn [k_table_file] in *.
+    { rewrite (D d eq_refl). now apply process_inet_degenerate. }
     rewrite <- (shown_v4 o (k_tcp4 st)) at 2.
     exact (process_inet_ok le o false 1 lk filt hdr_tcp (k_tcp4 st) _ Hlk eq_refl W4
              (or_introl (conj eq_refl S4)) (no_v6_error_v4 o) T4).
   Qed.
   Lemma P_udp4 : proto_rows v le o (k_files le st) lk filt p_udp4 = Val (R_inet lk filt 2 2 (k_udp4 st)).
   Proof.
-    apply wf_state_parts in Hwf as (_ & _ & _ & _ & U4 & _). apply files_text_safe_parts in Hsafe as (_ & _ & TU4 & _).
+    apply wf_state_parts in Hwf as (_ & _ & _ & _ & U4 & _ & _ & _ & HD). apply files_text_safe_parts in Hsafe as (_ & _ & TU4 & _).
+    apply deg_ok_parts in HD as (_ & _ & D & _).
     unfold proto_rows, p_udp4. cbv beta iota.
     change ((2 =? AF_INET) || (2 =? AF_INET6)) with true. cbv iota.
-    change (k_files le st (bs "udp")) with (Some (k_ifile le hdr_udp (k_udp4 st))).
+    change (k_files le st (bs "udp")) with (Some (k_table_file (k_deg st (bs "udp")) hdr_udp (k_ifile le hdr_udp (k_udp4 st)))).
+    destruct (k_deg st (bs "udp")) as [d|]; cbn [k_table_file] in *.
+    { rewrite (D d eq_refl). now apply process_inet_degenerate. }
     rewrite <- (shown_v4 o (k_udp4 st)) at 2.
     exact (process_inet_ok le o false 2 lk filt hdr_udp (k_udp4 st) _ Hlk eq_refl U4 (or_intror eq_refl)
              (no_v6_error_v4 o) TU4).
@@ -164,37 +193,48 @@ Section Protos.
   Lemma P_tcp6 : proto_rows v le o (k_files le st) lk filt p_tcp6
                  = Val (R_inet lk filt 10 1 (shown o true (opt_list (k_tcp6 st)))).
   Proof.
-    apply wf_state_parts in Hwf as (_ & _ & W6 & S6 & _). apply files_text_safe_parts in Hsafe as (_ & T6 & _).
+    apply wf_state_parts in Hwf as (_ & _ & W6 & S6 & _ & _ & _ & _ & HD). apply files_text_safe_parts in Hsafe as (_ & T6 & _).
+    apply deg_ok_parts in HD as (_ & D & _).
     unfold proto_rows, p_tcp6. cbv beta iota.
     change ((10 =? AF_INET) || (10 =? AF_INET6)) with true. cbv iota.
-    change (k_files le st (bs "tcp6")) with (option_map (k_ifile le hdr_tcp6) (k_tcp6 st)).
+    change (k_files le st (bs "tcp6"))
+      with (option_map (fun l => k_table_file (k_deg st (bs "tcp6")) hdr_tcp6 (k_ifile le hdr_tcp6 l)) (k_tcp6 st)).
     destruct (k_tcp6 st) as [l|] eqn:E6; cbn [option_map opt_list] in *.
-    - exact (process_inet_ok le o true 1 lk filt hdr_tcp6 l _ Hlk eq_refl W6
-               (or_introl (conj eq_refl S6)) (no_v6_failure_v6 o Ho) (T6 l eq_refl)).
+    - specialize (T6 l eq_refl). destruct (k_deg st (bs "tcp6")) as [d|]; cbn [k_table_file] in *.
+      { specialize (D d eq_refl). inversion D; subst l. now apply process_inet_degenerate. }
+      exact (process_inet_ok le o true 1 lk filt hdr_tcp6 l _ Hlk eq_refl W6
+               (or_introl (conj eq_refl S6)) (no_v6_failure_v6 o Ho) T6).
     - reflexivity.
   Qed.
   Lemma P_udp6 : proto_rows v le o (k_files le st) lk filt p_udp6
                  = Val (R_inet lk filt 10 2 (shown o true (opt_list (k_udp6 st)))).
   Proof.
-    apply wf_state_parts in Hwf as (_ & _ & _ & _ & _ & U6 & _).
+    apply wf_state_parts in Hwf as (_ & _ & _ & _ & _ & U6 & _ & _ & HD).
     apply files_text_safe_parts in Hsafe as (_ & _ & _ & TU6 & _).
+    apply deg_ok_parts in HD as (_ & _ & _ & D & _).
     unfold proto_rows, p_udp6. cbv beta iota.
     change ((10 =? AF_INET) || (10 =? AF_INET6)) with true. cbv iota.
-    change (k_files le st (bs "udp6")) with (option_map (k_ifile le hdr_udp6) (k_udp6 st)).
+    change (k_files le st (bs "udp6"))
+      with (option_map (fun l => k_table_file (k_deg st (bs "udp6")) hdr_udp6 (k_ifile le hdr_udp6 l)) (k_udp6 st)).
     destruct (k_udp6 st) as [l|] eqn:E6; cbn [option_map opt_list] in *.
-    - exact (process_inet_ok le o true 2 lk filt hdr_udp6 l _ Hlk eq_refl U6 (or_intror eq_refl)
-               (no_v6_failure_v6 o Ho) (TU6 l eq_refl)).
+    - specialize (TU6 l eq_refl). destruct (k_deg st (bs "udp6")) as [d|]; cbn [k_table_file] in *.
+      { specialize (D d eq_refl). inversion D; subst l. now apply process_inet_degenerate. }
+      exact (process_inet_ok le o true 2 lk filt hdr_udp6 l _ Hlk eq_refl U6 (or_intror eq_refl)
+               (no_v6_failure_v6 o Ho) TU6).
     - reflexivity.
   Qed.
   Lemma P_unix : v_exact v = true \/ no_lead_ws st = true ->
     proto_rows v le o (k_files le st) lk filt p_unix = Val (R_unix lk filt (k_unix st)).
   Proof.
     intros Hux.
-    apply wf_state_parts in Hwf as (_ & _ & _ & _ & _ & _ & WU & _).
+    apply wf_state_parts in Hwf as (_ & _ & _ & _ & _ & _ & WU & _ & HD).
+    apply deg_ok_parts in HD as (_ & _ & _ & _ & D).
     unfold unix_guard in Hug. apply andb_true_iff in Hug as [G1 G2].
     unfold proto_rows, p_unix. cbv beta iota.
     change ((1 =? AF_INET) || (1 =? AF_INET6)) with false. cbv iota.
-    change (k_files le st (bs "unix")) with (Some (k_ufile (k_unix st))).
+    change (k_files le st (bs "unix")) with (Some (k_table_file (k_deg st (bs "unix")) hdr_unix (k_ufile (k_unix st)))).
+    destruct (k_deg st (bs "unix")) as [d|]; cbn [k_table_file].
+    { rewrite (D d eq_refl). apply process_unix_degenerate. }
     apply process_unix_ok; [exact WU|exact Hux|exact G1|].
     apply orb_true_iff in G2 as [G2|G2]; [now left|right; now apply negb_true_iff in G2].
   Qed.
@@ -240,12 +280,14 @@ Section Protos.
       assert (E6 : proto_log (k_files le st) p_tcp6 = match k_tcp6 st with Some _ => [bs "tcp6"] | None => [] end).
       { unfold proto_log, p_tcp6. cbv beta iota.
         change ((10 =? AF_INET) || (10 =? AF_INET6)) with true. cbv iota.
-        change (k_files le st (bs "tcp6")) with (option_map (k_ifile le hdr_tcp6) (k_tcp6 st)).
+        change (k_files le st (bs "tcp6"))
+          with (option_map (fun l => k_table_file (k_deg st (bs "tcp6")) hdr_tcp6 (k_ifile le hdr_tcp6 l)) (k_tcp6 st)).
         now destruct (k_tcp6 st). }
       assert (E7 : proto_log (k_files le st) p_udp6 = match k_udp6 st with Some _ => [bs "udp6"] | None => [] end).
       { unfold proto_log, p_udp6. cbv beta iota.
         change ((10 =? AF_INET) || (10 =? AF_INET6)) with true. cbv iota.
-        change (k_files le st (bs "udp6")) with (option_map (k_ifile le hdr_udp6) (k_udp6 st)).
+        change (k_files le st (bs "udp6"))
+          with (option_map (fun l => k_table_file (k_deg st (bs "udp6")) hdr_udp6 (k_ifile le hdr_udp6 l)) (k_udp6 st)).
         now destruct (k_udp6 st). }
       rewrite E6, E7. reflexivity.
   Qed.
@@ -409,7 +451,7 @@ Theorem system_wide v le o st kind :
                /\ net_log v le o (k_files le st) (to_procs (k_procs st)) kind = spec_log kind st.
 Proof.
   intros Hwf Hsafe Hug Hk Ho Hux.
-  pose proof (wf_state_parts st Hwf) as (_ & _ & _ & _ & _ & _ & _ & WP).
+  pose proof (wf_state_parts st Hwf) as (_ & _ & _ & _ & _ & _ & _ & WP & _).
   destruct (retrieve_ok v le o st (lookup_v v (dicts (k_procs st))) None (lookup_v_lk_ok v _) Hwf Hsafe Ho Hug kind Hk)
     as [HR HL]; [intros H; now apply Hux|].
   assert (HA : net_connections_adds v le o (k_files le st) (to_procs (k_procs st)) kind
@@ -540,7 +582,7 @@ Theorem system_wide_first v le o st kind :
                /\ Forall2 row_ok adds (spec_sys_first kind (restrict6 o st)).
 Proof.
   intros Hm Hwf Hsafe Hug Hk Ho Hux.
-  pose proof (wf_state_parts st Hwf) as (_ & _ & _ & _ & _ & _ & _ & WP).
+  pose proof (wf_state_parts st Hwf) as (_ & _ & _ & _ & _ & _ & _ & WP & _).
   destruct (retrieve_ok v le o st (lookup_v v (dicts (k_procs st))) None (lookup_v_lk_ok v _) Hwf Hsafe Ho Hug kind Hk Hux)
     as [HR _].
   unfold net_connections_adds. rewrite check_kind_good by exact Hk. cbn [obind].
@@ -640,7 +682,7 @@ Definition ex_procs (shared : bool) : list kproc :=
 Definition ex_state (shared : bool) (path : bytes) : kstate :=
   Build_kstate [ex_tcp] None [] (Some [ex_udp6])
                [ex_unix (bs "600") path UStream; ex_unix (bs "601") (bs "@abstract name") USeqpacket]
-               (ex_procs shared).
+               (ex_procs shared) (fun _ => None).
 
 (* the hypotheses of [system_wide] / [per_process] hold for a state with a TCP socket held by two
    processes, a hidden holder, a UNIX name with blanks and an abstract name *)
@@ -707,7 +749,7 @@ Definition ex_v6_listen0 : isock :=
               (IP6 (q4 0 0 0 0) (q4 0 0 0 0) (q4 0 0 0 0) (q4 0 0 0 0)) 0 7 mid0 (bs "502") [].
 Example ipv6_unsupported_example :
   let o := {| o_ntop6 := false; o_supported := false |} in
-  let st := Build_kstate [ex_tcp] None [] (Some [ex_udp6; ex_v6_listen0]) [] (ex_procs false) in
+  let st := Build_kstate [ex_tcp] None [] (Some [ex_udp6; ex_v6_listen0]) [] (ex_procs false) (fun _ => None) in
   wf_state st = true /\ files_text_safe true st = true
   /\ exists adds, net_connections_adds current true o (k_files true st) (to_procs (k_procs st)) (bs "inet") = Val adds
                   /\ map r_family adds = [2; 10] /\ map r_laddr adds = [AInet [127; 0; 0; 1] 22; ANone]
@@ -763,3 +805,30 @@ Lemma unix_name_with_lf_splits :
   /\ exists rows, process_unix current (Some (k_ufile [u2])) 1 (fun _ => None) None = Val rows
                   /\ map r_laddr rows = [APath (bs "/tmp/a")].
 Proof. vm_compute. repeat split; try reflexivity. eexists. split; reflexivity. Qed.
+
+(* ------------------------------------------------------------ degenerate table files *)
+(* tables that exist but are completely empty (0 bytes), a header without newline, a lone newline -- alone and next to a
+   well-formed table: the state is in the domain of the main theorems; such a table contributes no row, raises nothing,
+   and is read like any other *)
+Example empty_tables_example :
+  let st := Build_kstate [ex_tcp] (Some []) [] (Some []) [] (ex_procs false)
+              (fun n => if beqb n (bs "tcp6") then Some DEmpty else if beqb n (bs "udp6") then Some DHeaderNoNl
+                        else if beqb n (bs "unix") then Some DNewline else None) in
+  wf_state st = true /\ files_text_safe true st = true
+  /\ k_files true st (bs "tcp6") = Some [] /\ k_files true st (bs "udp6") = Some hdr_udp6
+  /\ k_files true st (bs "unix") = Some [10]
+  /\ (exists adds, net_connections_adds current true ipv6_ok (k_files true st) (to_procs (k_procs st)) (bs "all") = Val adds
+                   /\ length adds = 1%nat /\ length (spec_sys (bs "all") st) = 1%nat)
+  /\ net_log current true ipv6_ok (k_files true st) (to_procs (k_procs st)) (bs "all")
+     = [bs "tcp"; bs "tcp6"; bs "udp"; bs "udp6"; bs "unix"]
+  /\ net_connections current true ipv6_ok (k_files true st) (to_procs (k_procs st)) (bs "inet6") = Val [].
+Proof.
+  vm_compute. repeat split; try reflexivity. eexists. repeat split; reflexivity.
+Qed.
+
+(* every table degenerate at once, in each of the three forms *)
+Example all_tables_degenerate :
+  forall d, let st := Build_kstate [] (Some []) [] (Some []) [] (ex_procs false) (fun _ => Some d) in
+  wf_state st = true /\ files_text_safe true st = true
+  /\ net_connections current true ipv6_ok (k_files true st) (to_procs (k_procs st)) (bs "all") = Val [].
+Proof. intros d. destruct d; vm_compute; repeat split; reflexivity. Qed.
